@@ -120,11 +120,11 @@ fn main() {
 
 GENERIC_DECL = {
     '': ('', '', ''),
-    'ty': ('<T: Default + PartialEq + core::fmt::Debug + Clone>', '<u16>', ''),
-    'where': ('<T>', '<u16>', ' where T: Default + PartialEq + core::fmt::Debug + Clone'),
+    'ty': ('<T: Default + PartialEq + ::core::fmt::Debug + Clone>', '<u16>', ''),
+    'where': ('<T>', '<u16>', ' where T: Default + PartialEq + ::core::fmt::Debug + Clone'),
     'lt': ("<'a>", "<'static>", ''),
     'const': ('<const N: usize>', '<3>', ''),
-    'lt_ty': ("<'a, T: Default + PartialEq + core::fmt::Debug + Clone>", "<'static, u16>", ''),
+    'lt_ty': ("<'a, T: Default + PartialEq + ::core::fmt::Debug + Clone>", "<'static, u16>", ''),
 }
 
 PALETTE_RS = dict(PALETTE)
@@ -135,6 +135,36 @@ PALETTE_RS['BoxStr'] = ('Box<str>', 'Box::<str>::from("dw")', 'Box::<str>::from(
 PALETTE_RS['u32'] = ('u32', '70000u32', '5u32')
 PALETTE_RS['T'] = ('T', None, None)
 PALETTE_RS['Inner'] = ('Inner', 'Inner::Bb', 'Inner::Cc')
+PALETTE_RS['Cap'] = ('Cap', 'Cap::from("dw")', 'Cap::from("zz")')
+# palette substitution for the #![no_std] (no alloc) configuration
+NOSTD_MAP = {'String': 'Cap', 'BoxStr': 'Cap', 'Inner': 'StaticStr'}
+
+SUPPORT_NOSTD_RS = r'''
+#![allow(warnings)]
+use core::sync::atomic::{AtomicUsize, Ordering};
+pub static CALLS: AtomicUsize = AtomicUsize::new(0);
+/// fixed-capacity string-ish type: lets `default` variants and string-like fields exist without alloc
+#[derive(Debug, PartialEq, Clone, Copy, Default, Hash, Eq)]
+pub struct Cap { pub len: usize, pub buf: [u8; 16] }
+impl<'a> From<&'a str> for Cap {
+    fn from(s: &'a str) -> Cap {
+        let mut buf = [0u8; 16];
+        let n = if s.len() < 16 { s.len() } else { 16 };
+        let mut i = 0;
+        while i < n { buf[i] = s.as_bytes()[i]; i += 1; }
+        Cap { len: n, buf }
+    }
+}
+impl core::fmt::Display for Cap {
+    fn fmt(&self, f: &mut core::fmt::Formatter) -> core::fmt::Result { f.pad(core::str::from_utf8(&self.buf[..self.len]).unwrap_or("?")) }
+}
+impl AsRef<str> for Cap { fn as_ref(&self) -> &str { core::str::from_utf8(&self.buf[..self.len]).unwrap_or("?") } }
+#[derive(Debug, PartialEq, Clone, Default, Hash, Eq)]
+pub struct Cg<const N: usize>;
+#[derive(Debug, PartialEq, Clone, Default)]
+pub struct PErr(pub Cap);
+pub fn perr(s: &str) -> PErr { CALLS.fetch_add(1, Ordering::SeqCst); PErr(Cap::from(s)) }
+'''
 
 EXTREME = {'u8': 'u8::MAX', 'i32': 'i32::MIN', 'i64': 'i64::MIN', 'u16': 'u16::MAX', 'u32': 'u32::MAX', 'bool': 'true',
            'String': 'String::from("a fairly long string with {braces} and \\u{e9}\\u{1f600} in it")', 'OptU8': 'Some(u8::MAX)'}
@@ -178,11 +208,25 @@ def field_val(key, alt):
 
 
 class EnumGen:
+    palette_map = {}
+    generic_bound = None
+    defs_only = False
+    shadow = False
+
     def __init__(self, e: ESpec, strum_path='strum'):
         self.e = e
         self.sp = strum_path
+        if self.palette_map:
+            import copy
+            self.e = e = copy.deepcopy(e)
+            for v in e.variants:
+                v.ftypes = [self.palette_map.get(t, t) for t in v.ftypes]
         g = GENERIC_DECL[e.generics]
         self.gdecl, self.ginst, self.gwhere = g
+        if self.generic_bound:
+            std = 'Default + PartialEq + ::core::fmt::Debug + Clone'
+            self.gdecl = self.gdecl.replace(std, self.generic_bound)
+            self.gwhere = self.gwhere.replace(std, self.generic_bound)
 
     # ----- the enum item -------------------------------------------------------------------------
     def variant_attrs(self, v: VSpec):
@@ -275,7 +319,7 @@ class EnumGen:
         if e.repr:
             out.append('#[repr(%s)]' % e.repr)
         for x in e.extra.get('enum_attrs', []):
-            out.append(x)
+            out.append(x if self.sp == 'strum' else x.replace('strum::', self.sp + '::'))
         return out
 
     def dw_fns(self):
@@ -305,6 +349,16 @@ class EnumGen:
         out.append('}')
         out.append('pub type Inst = %s%s;' % (e.name, self.ginst))
         return out
+
+    def enum_source(self):
+        """the enum item alone (attributes + declaration), as handed to a derive macro"""
+        e = self.e
+        out = self.enum_attrs()
+        out.append('pub enum %s%s%s {' % (e.name, self.gdecl, self.gwhere))
+        for v in e.variants:
+            out += self.variant_decl(v)
+        out.append('}')
+        return '\n'.join(out)
 
     def sp_derive(self, d):
         p = DERIVE_PATH[d]
@@ -861,6 +915,12 @@ class EnumGen:
 
     def render(self):
         e = self.e
+        if self.defs_only:
+            out = ['use super::support::*;']
+            if self.shadow:
+                out += ['mod core {}', 'mod std {}', 'mod alloc {}']
+            out += self.enum_item(tuple(e.extra.get('base_derives', ('Debug', 'PartialEq', 'Clone'))))
+            return '\n'.join(out) + '\n'
         out = ['use super::support::*;', 'use std::sync::atomic::Ordering;']
         if self.sp != 'strum' and not self.sp.startswith('::'):
             pass
